@@ -33,6 +33,9 @@ pub struct InstCfg {
     /// now and then 12..70 additional variables the problem does not use, at derived positions of the variable list
     /// (instances with "many variables per touched variable"; implementations may switch algorithm with the ratio)
     pub crowd: bool,
+    /// a previously fixed value may lie outside the variable's bound (partial_evaluate does not look at bounds;
+    /// an integer in [0, 3] fixed at 4, a binary fixed at an LP-noise value)
+    pub fixed_out_of_bound: bool,
 }
 
 impl InstCfg {
@@ -60,6 +63,7 @@ impl InstCfg {
             sense_any: true,
             tolerance_candidates: false,
             crowd: false,
+            fixed_out_of_bound: false,
         }
     }
 }
@@ -249,6 +253,17 @@ pub fn gen_instance(t: &mut Tape, cfg: &InstCfg, ctx: &mut Ctx) -> GI {
             // a previously fixed value (inside the bound)
             v.substituted_value = Some(in_bound_value(t, &v, cfg.regime));
             ctx.label("fixed-variable");
+            if cfg.fixed_out_of_bound && t.p(40) {
+                if let Ok((lo, hi)) = effective_bound(&v) {
+                    if hi.is_finite() && hi.abs() < 1e6 {
+                        v.substituted_value = Some(hi + 1.0);
+                        ctx.label("fixed-value-outside-its-bound");
+                    } else if lo.is_finite() && lo.abs() < 1e6 {
+                        v.substituted_value = Some(lo - 1.0);
+                        ctx.label("fixed-value-outside-its-bound");
+                    }
+                }
+            }
         }
         inst.decision_variables.push(v);
     }
@@ -331,6 +346,11 @@ pub fn gen_instance(t: &mut Tape, cfg: &InstCfg, ctx: &mut Ctx) -> GI {
         if t.coin() {
             rc.removed_reason_parameters = gen_smap(t);
         }
+        if rc.removed_reason == "penalty_method" {
+            // exactly what the SDK's penalty_method leaves behind: the id of the weight parameter of that round
+            rc.removed_reason_parameters.insert("parameter_id".to_string(), (*t.pick(&[2u64, 7, 1000])).to_string());
+            ctx.label("removed-constraint-records-a-penalty-parameter-id");
+        }
         inst.removed_constraints.push(rc);
         ctx.label("removed-constraint");
     }
@@ -374,8 +394,25 @@ pub fn gen_instance(t: &mut Tape, cfg: &InstCfg, ctx: &mut Ctx) -> GI {
         inst.description = Some(d);
     }
     if cfg.metadata && t.p(48) {
+        // values recorded by an earlier with_parameters: one or two entries; the ids may have been reused since by
+        // variables created later (log_encode bits and slacks are numbered from the same counter as weight parameters)
         let mut p = v1::Parameters::default();
         p.entries.insert(7, 1.5);
+        match t.choice(4) {
+            0 => {}
+            1 => {
+                p.entries.insert(2, -1.0);
+            }
+            2 => {
+                p.entries.clear();
+                p.entries.insert(ids[t.choice(ids.len())], 0.75);
+                ctx.label("recorded-parameter-id-is-a-variable-id");
+            }
+            _ => {
+                p.entries.insert(ids[t.choice(ids.len())], 0.75);
+                ctx.label("recorded-parameter-id-is-a-variable-id");
+            }
+        }
         inst.parameters = Some(p);
     }
     if cfg.hints && n_act > 0 && t.p(128) {
